@@ -113,6 +113,12 @@ def _worker_init():
     torch.set_num_threads(1)
     torch.set_grad_enabled(False)
     signal.signal(signal.SIGALRM, _alarm)
+    # the library prints progress messages from constructors; keep the check's stdout for verdict lines only
+    try:
+        devnull = os.open(os.devnull, os.O_WRONLY)
+        os.dup2(devnull, 1)
+    except OSError:
+        pass
     import warnings
     warnings.filterwarnings("ignore")
 
